@@ -5,8 +5,10 @@
 # INPLACE=1 applies it to /repo itself (git -C /repo apply ...; checks; git -C /repo checkout -- .).
 ID=$1; shift
 CHECKS=${@:-$ID}
-P=/verif/seeded/$ID/patch.diff
-[ -f "$P" ] || P=/tmp/seed/out/$ID/patch.diff
+# ROUND=2 selects the second seeding round (/verif/seeded/<ID>-r2, /tmp/seed/out2/<ID>)
+SUF=${ROUND:+-r$ROUND}
+P=/verif/seeded/$ID$SUF/patch.diff
+[ -f "$P" ] || P=/tmp/seed/out${ROUND:-}/$ID/patch.diff
 if [ -n "$INPLACE" ]; then
   git -C /repo apply "$P" || { echo "patch does not apply"; exit 2; }
   trap 'git -C /repo checkout -- . ' EXIT
